@@ -23,9 +23,14 @@ INDENTS = (4, 2, "\t", 1)
 OPTS = tuple({"indent": i, "include_descriptions": d, "include_custom_schema_directives": c} for i in INDENTS for d in (True, False) for c in (False, True))
 
 
-def code_schema():
-    """code-built schema: enum with internal values, defaults of every input kind, python names"""
-    color = EnumType("Color", [EnumValue("RED", 1), EnumValue("BLUE", "blue", deprecation_reason="no blue"), EnumValue("GREEN", (0, 255, 0))], description="colors")
+def code_schema(permuted=False):
+    """code-built schema: enum with internal values, defaults of every input kind, python names.
+    permuted=True: the same type names and the same Python default values, but the enum's internal values are
+    assigned to other names (so equal-looking defaults must print differently)"""
+    if permuted:
+        color = EnumType("Color", [EnumValue("RED", "blue"), EnumValue("BLUE", (0, 255, 0), deprecation_reason="no blue"), EnumValue("GREEN", 1)], description="colors")
+    else:
+        color = EnumType("Color", [EnumValue("RED", 1), EnumValue("BLUE", "blue", deprecation_reason="no blue"), EnumValue("GREEN", (0, 255, 0))], description="colors")
     inp = InputObjectType("In", lambda: [
         InputField("f", NonNullType(Int)), InputField("g", String, default_value="s"), InputField("c", color, default_value="blue"),
         InputField("again", ListType(NonNullType(inp)), default_value=[]), InputField("fl", Float, default_value=1.5), InputField("b", Boolean, default_value=True),
@@ -126,7 +131,7 @@ def _strip_desc(snap):
 
 # ---- history independence: reference = the first call in a FRESH interpreter
 _FRESH = {}
-HSCHEMAS = ("gen", "code", "directives")
+HSCHEMAS = ("gen", "code", "directives", "code-permuted")
 DIRECTIVE_SDL = 'directive @tag(v: Int) on FIELD_DEFINITION | OBJECT\ntype Query @tag(v: 1) { a: Int @tag(v: 2) @deprecated(reason: "x") b: Int @deprecated }'
 
 
@@ -135,6 +140,8 @@ def make_hschema(name):
         return build_schema(S.render(S.base_record(dict(desc=True, dep=True, default=10, recursion=3))))
     if name == "code":
         return code_schema()
+    if name == "code-permuted":
+        return code_schema(permuted=True)
     return build_schema(DIRECTIVE_SDL)
 
 
@@ -156,19 +163,19 @@ def fresh_text(name, oi):
 
 def _history(h1: int, h2: int, h3: int, s: int, o: int) -> bool:
     """
-    pre: -1 <= h1 < 6 and -1 <= h2 < 6 and -1 <= h3 < 6 and 0 <= s < len(HSCHEMAS) and 0 <= o < 4
+    pre: -1 <= h1 < 8 and -1 <= h2 < 8 and -1 <= h3 < 8 and 0 <= s < len(HSCHEMAS) and 0 <= o < 4
     pre: (h2 == -1 or h1 >= 0) and (h3 == -1 or h2 >= 0)
     pre: shard_of(s * 4 + o)
     post: _
     """
-    hist = [concrete_int(h, -1, 5) for h in (h1, h2, h3)]
+    hist = [concrete_int(h, -1, 7) for h in (h1, h2, h3)]
     NAME = pick(s, HSCHEMAS)
     OI = (0, 1, 2, 3)[concrete_int(o, 0, 3)]          # indent 4, desc on/off, custom directives off/on
     with untraced():
         # earlier calls in this process: (schema, option set) pairs
         for h in hist:
             if h >= 0:
-                make_hschema(HSCHEMAS[h % 3]).to_string(**OPTS[(h // 3) * 1 + 0 if h < 3 else 1])
+                make_hschema(HSCHEMAS[h % 4]).to_string(**OPTS[0 if h < 4 else 1])
         schema = make_hschema(NAME)
         text = schema.to_string(**OPTS[OI])
         ok = text == fresh_text(NAME, OI)
@@ -252,8 +259,8 @@ CONDITIONS = [
         witness={"src": 0, "opt": 0, "default": 1, "recursion": 0, "mask": 0},
     ),
     Cond(
-        name="history", fn=_history, quick=150, thorough=400, per_path=60, shards_quick=12, shards_thorough=12,
-        bound="every sequence of 0..3 earlier to_string calls (3 schemas x 2 option sets) in the same process, then the call under test (3 schemas x 4 option sets): equal to the first call in a fresh interpreter",
+        name="history", fn=_history, quick=200, thorough=400, per_path=60, shards_quick=16, shards_thorough=16,
+        bound="every sequence of 0..3 earlier to_string calls (4 schemas, two of them with the same type names and equal Python defaults that must print differently, x 2 option sets) in the same process, then the call under test (4 schemas x 4 option sets): equal to the first call in a fresh interpreter",
         symbolic={"h1,h2,h3": "choice: earlier calls", "s": "choice: schema", "o": "choice: options"},
         assumptions=["reference text computed once per (schema, options) in a fresh /venv/bin/python subprocess"],
         witness={"h1": 1, "h2": -1, "h3": -1, "s": 2, "o": 3},
